@@ -149,6 +149,18 @@ fn has_reserved_prefix(n: &str) -> bool {
     words.iter().any(|w| n.len() > w.len() && n.starts_with(w))
 }
 
+/// Comment bodies: empty, runs of stars before the terminator, terminator look-alikes, openers inside comments,
+/// line breaks, code and non-ASCII text inside; line comments end with the line feed that terminates them.
+fn comment_alphabet() -> Vec<String> {
+    [
+        "/**/", "/***/", "/****/", "/*****/", "/* **/", "/*a**/", "/*** b ***/", "/* * */", "/* / */", "/*/*/", "/* /* */", "/* // */", "/* \n */", "/* \r\n */", "/*\"*/", "/* ; } fn main() { */", "/*é嗨*/", "/* *\n * x\n **/",
+        "//\n", "///\n", "// */\n", "// /*\n", "//*\n", "//\r\n", "// é嗨 ; }\n", "// x\n// y\n",
+    ]
+    .iter()
+    .map(|s| s.to_string())
+    .collect()
+}
+
 fn cmr_of(text: &str) -> Result<String, String> {
     let args = vec![("PAR".to_string(), Val::u(8, 9), Ty::U(8))];
     // the parameter may have been renamed: synthesise from parameters()
@@ -303,6 +315,56 @@ pub fn run(rep: &Report) -> i32 {
                 }
             }
         }
+    }
+    // (2b) comment alphabet: every comment body at every token boundary at once, and at one boundary at a time
+    {
+        let toks = Tokens::program(&base, RenderOpts::default()).toks;
+        let comments = comment_alphabet();
+        rep.set("comment_alphabet", json!(comments));
+        let mut variants: Vec<(String, String)> = vec![];
+        for c in &comments {
+            let sep = if c.starts_with("//") { format!(" {c}") } else { format!(" {c} ") };
+            // everywhere (also before the first and after the last token)
+            let mut t = sep.clone();
+            for (i, tok) in toks.iter().enumerate() {
+                if i > 0 {
+                    t.push_str(&sep);
+                }
+                t.push_str(tok);
+            }
+            t.push_str(&sep);
+            variants.push((format!("comment {c:?} at every boundary"), t));
+            // glued to the neighbouring tokens, one boundary at a time (block comments need no blank around them)
+            let glue = if c.starts_with("//") { c.clone() } else { c.clone() };
+            let step = if quick { 3 } else { 1 };
+            for b in (0..=toks.len()).step_by(step) {
+                let mut t = String::new();
+                for (i, tok) in toks.iter().enumerate() {
+                    if i == b {
+                        t.push_str(&glue);
+                    } else if i > 0 {
+                        t.push(' ');
+                    }
+                    t.push_str(tok);
+                }
+                if b == toks.len() {
+                    t.push_str(&glue);
+                }
+                variants.push((format!("comment {c:?} glued in at boundary {b}"), t));
+            }
+        }
+        par_for(&variants, rep, 64, |_, (label, text)| {
+            rep.state();
+            rep.transition(1);
+            rep.eval(1);
+            rep.trace(1);
+            rep.nontrivial(1);
+            match cmr_of(text) {
+                Ok(c) if c == base_cmr => rep.class("accepted-equal-cmr"),
+                Ok(_) => rep.violation("C17:comment-changes-program", format!("{label}: different program"), json!({"kind": "compile", "program": text, "expect": "accept", "observed": "different-cmr"})),
+                Err(e) => rep.violation("C17:comment-rejected", format!("{label}: rejected: {e}"), json!({"kind": "compile", "program": text, "expect": "accept", "observed": "reject"})),
+            }
+        });
     }
     // (3) parse trees equal after renaming back is implied by equal CMR; additionally the renamed program must parse
     let _ = simfony::parse::Program::parse_from_str(&base_text);
